@@ -2,7 +2,7 @@
 from ..core import hx, ints
 
 ID = "C12"
-PROPS = ["F1Verif.Props.C12", "F1Verif.Props.FactsC12", "F1Verif.Props.Pipeline", "F1Verif.Props.RefineC12", "F1Verif.Props.RefineC12Grid"]
+PROPS = ["F1Verif.Props.C12", "F1Verif.Props.FactsC12", "F1Verif.Props.Pipeline", "F1Verif.Props.RefineC12", "F1Verif.Props.RefineC12Grid", "F1Verif.Props.FloatSpec", "F1Verif.Props.C12Float"]
 RULE = ("engine A on api.NewDistribution (scripted rate and random sources): small (N<=40, r<=200) near-exhaustive "
         "sampling, larger random (N up to 864000, r up to 1e7) in summary form, time-varying rates over several cycles, "
         "random sources inside and beyond range, pass-through intervals, invalid kinds/intervals; outputs compared "
@@ -158,5 +158,5 @@ def distribution(recs):
 
 MANIFEST = {
  "text": "For the exact-arithmetic model of the regular distribution: every cycle sums to its rate whenever N*(ceil(S*r/N)/S - r/N) < 1 (C12_regular_sum), in particular for all N <= 10^7 (C12_regular_sum_envelope, C12_regular_all_cycles over any number of cycles with time-varying rates), outputs non-negative and even, one evaluation per cycle; false beyond (C12_regular_beyond, a known finding). For the random distribution (integers only, model = code): C12_random_cycle for every random source with non-negative outputs. Induction over steps and cycles, no bound on N, rates or cycles. Tie: bit-exact Float model vs api.NewDistribution on every run, exact model run alongside.",
- "note": "binary64 rounding of the regular distribution is modelled (Float layer, compared bit-for-bit with Go) but not verified: theorems are about exact arithmetic; float_gap_events counts sampled cases where the two layers differ. Known findings outside the envelope (N > 1e7; rate > 1e8 per tick). int overflow outside the model.",
- "technique": "Lean 4 theorems by induction (invariant acc + S*emitted = k*ceil(S*r/N)) + bit-exact model/implementation correspondence"}
+ "note": "Three layers, all tied to the regenerated closure (Props/RefineC12): exact arithmetic (every N <= 10^7, C12_regular_all_cycles via regStepG_rat_grid), binary64 executed by the driver bit-for-bit against Go on every run, and - new - rounded arithmetic as a theorem: for ANY arithmetic satisfying FPSpec (Props/FloatSpec: monotone rounding with relative error 2^-53, exact on integers up to 2^53 and under Sterbenz' condition; the standard model of floating point without underflow/overflow, of which exact rationals are an instance) a cycle of N <= 10^6 sub-ticks with 0 <= r <= 10^7 emits exactly r (C12_float_cycle_exact, C12_generated_cycle_float). That Go's float64 satisfies FPSpec on the magnitudes that occur here (0 or between 1e-7 and 1e15) is IEEE 754 conformance, assumed. Known findings outside the envelope (N > 1e7; rate > 1e8 per tick). int overflow outside the model.",
+ "technique": "Lean 4 theorems: induction (invariant acc + S*emitted = k*ceil(S*r/N)) for exact arithmetic; refinement of the regenerated MiniGo closure; error analysis over an abstract floating-point specification (FPSpec) for rounded arithmetic; + bit-exact model/implementation correspondence"}
